@@ -48,9 +48,38 @@ def run(ctx, H):
             cases.append(c2)
             if not it.get("deny"):
                 pairs.append((c1, c2, [kk for kk, _ in ext["m"] if kk not in have]))
+    # many unknown members (size-dependent code paths: counts around small multiples of the number of fields), next to
+    # several faulty known members in an order that is neither the declaration order nor sorted
+    for e in ents:
+        it = e.ty[1]
+        for rep in range(1 if ctx.tier == "quick" else 4):
+            base = K.gen_item_valid(it, ctx.rng, 0)
+            if not (isinstance(base, dict) and "m" in base) or not base["m"]:
+                continue
+            tagk = it.get("tag")[1] if it.get("tag") else None
+            idx = [i for i, (k, _) in enumerate(base["m"]) if k != tagk]
+            for i in ctx.rng.sample(idx, min(len(idx), ctx.rng.choice([2, 2, 3]))):
+                base["m"][i][1] = copy.deepcopy(ctx.rng.choice(K.WRONG))
+            base["m"].reverse()
+            n = max(1, len(idx))
+            have = {k for k, _ in base["m"]}
+            for cnt in sorted({n, 3 * n, 4 * n, 4 * n + 1, 4 * n + 2, 5 * n + 3, 8 * n + 1, 40}):
+                if ctx.tier == "quick" and ctx.rng.random() < 0.4:
+                    continue
+                ext = copy.deepcopy(base)
+                for j in range(cnt):
+                    ext["m"].insert(ctx.rng.randint(0, len(ext["m"])), ["unk_%02d" % j, copy.deepcopy(ctx.rng.choice(K.WRONG))])
+                sc, d, kind = S.script_mix(ctx, 0.6)
+                c1 = E.Case(e, base, "ov", sc, d, kind, 0)
+                c2 = E.Case(e, ext, "json" if K.is_json_doc(ext) and ctx.rng.random() < 0.3 else "ov", sc, d, kind, cnt)
+                if c2.src == "json":
+                    c1 = E.Case(e, base, "json", sc, d, kind, 0)
+                cases.append(c2)
+                if not it.get("deny"):
+                    pairs.append((c1, c2, [kk for kk, _ in ext["m"] if kk not in have]))
     obs, bads = S.run_spec_check(ctx, H, "c09", cases, [("mon_c04", "an UnknownKey report that is not true of the payload (key absent, or listed among the accepted keys)")],
                                  "every derived struct / tagged enum with and without deny_unknown_fields (default and custom function, skipped/renamed fields) x payloads extended with "
-                                 "extra keys incl. near-misses of real keys and the names of skipped fields")
+                                 "extra keys incl. near-misses of real keys and the names of skipped fields; plus payloads with n .. 8n+1 and 40 unknown members (n = number of fields present) next to two or three faulty fields")
     # "ignored completely": without the attribute the run with the extra keys is identical to the run without them,
     # provided the extra keys really are unknown to the type (they are not effective keys of the container examined)
     plain = []
